@@ -56,7 +56,7 @@ func (eng) CoqRun(mode string) string {
 	return "Check_ckpt.run_c08"
 }
 func (eng) Rule(mode string) string {
-	return "histories over 1..4 database objects on one shared memory file system: put/delete (tiny memtable and WAL sizes so that rotations happen every few writes), Checkpoint whose asynchronous part is stepped (WAL save, list save) by the harness, flush and compaction tasks stepped point by point (checkpoint while a flush is parked before its snapshot / before its swap / after its swap, while a compaction is parked, second checkpoint after such a first), retention updates, restore of any completed handle into the same or a fresh directory with full or key-group-range ownership and scripted neighbours (needs/free/error/slow/live), crash (dead file-system view) and same-process drop, forced GC with cleanup barrier, injected storage faults (the Save of the checkpoints file / of a WAL / of a flush's first table fails, a WAL delete of Save's Destroy fails) on retention updates, checkpoint steps and flush steps, reads of live databases, chains restore->write->checkpoint->restore. Non-trivial: the history restores at least one checkpoint that was taken while a background task was parked or after which the source database did further work, or runs a gc that collected at least one table object; distinct by hash of the case."
+	return "histories over 1..4 database objects on one shared memory file system: put/delete (tiny memtable and WAL sizes so that rotations happen every few writes), Checkpoint whose asynchronous part is stepped (WAL save, list save) by the harness, flush and compaction tasks stepped point by point (checkpoint while a flush is parked before its snapshot / before its swap / after its swap, while a compaction is parked, second checkpoint after such a first), retention updates, restore of any completed handle into the same or a fresh directory with full or key-group-range ownership and scripted neighbours (needs/free/error/slow/live), crash (dead file-system view) and same-process drop, forced GC with cleanup barrier, injected storage faults (the Save of the checkpoints file / of a WAL / of a flush's first table fails, a WAL delete of Save's Destroy fails) on retention updates, checkpoint steps and flush steps, Write faults by call index on WAL files, further source databases taking the same checkpoint id and composite restores from several handles (scale-in), a flush completing while a compaction holds a computed change set, rescale sharing with base-level tables, operator-level neighbour answers (deployed / not deployed real Operator), reads of live databases, chains restore->write->checkpoint->restore. Non-trivial: the history restores at least one checkpoint that was taken while a background task was parked or after which the source database did further work, or runs a gc that collected at least one table object; distinct by hash of the case."
 }
 
 // ------------------------------------------------------------------ case format
